@@ -206,74 +206,6 @@ func c08SubKind(sub string) string {
 	return "many-colons"
 }
 
-// ---------------------------------------------------------------- reproducibility
-
-const c08Stride = 1000 // case id = history index * c08Stride + line within the history
-
-// c08Entropy: crypto/rand.Reader for the duration of one history (AES IVs, so that a replayed history hands out the same opaque
-// token strings and a flipped character decrypts to the same plaintext)
-type c08Entropy struct{ r *hx.Rand }
-
-func (e *c08Entropy) Read(p []byte) (int, error) {
-	for i := range p {
-		p[i] = byte(e.r.U64() >> 17)
-	}
-	return len(p), nil
-}
-
-// c08OnlyHistory: the history a replay (`vharness -only <case id>`) asks for, -1 = all
-func c08OnlyHistory() int {
-	for i, a := range os.Args {
-		v := ""
-		switch {
-		case (a == "-only" || a == "--only") && i+1 < len(os.Args):
-			v = os.Args[i+1]
-		case strings.HasPrefix(a, "-only="):
-			v = strings.TrimPrefix(a, "-only=")
-		case strings.HasPrefix(a, "--only="):
-			v = strings.TrimPrefix(a, "--only=")
-		}
-		if n, err := strconv.Atoi(v); err == nil && v != "" {
-			return n / c08Stride
-		}
-	}
-	return -1
-}
-
-func c08Hash(s string) uint64 {
-	h := sha256.Sum256([]byte(s))
-	var v uint64
-	for _, b := range h[:8] {
-		v = v<<8 | uint64(b)
-	}
-	return v
-}
-
-// c08Subjects: the users of a history. Beside two plain ones, identifiers that contain the separator of the opaque access-token
-// format and other bytes a parser might trip over
-var c08OddSubjects = []string{
-	"urn:example:user:alice", // URN: several colons
-	"did:web:example.com:bob", // DID
-	"idp:42",                  // one colon (federated "provider:id")
-	"a%3Ab",                   // a percent-encoded colon: nobody may decode it
-	"carol|t1;x=y&z+w",        // other separator-like bytes
-	"dave:",                   // ends with the separator
-	":erin",                   // starts with it
-	"at1:user1",               // looks like the content of another opaque token
-}
-
-func c08SubKind(sub string) string {
-	switch n := strings.Count(sub, ":"); {
-	case n == 0 && strings.ContainsAny(sub, "%|;&+="):
-		return "sepbytes"
-	case n == 0:
-		return "plain"
-	case n == 1:
-		return "one-colon"
-	}
-	return "many-colons"
-}
-
 // ---------------------------------------------------------------- the bed: one provider, possibly several virtual issuers
 
 type c08Bed struct {
